@@ -9,10 +9,14 @@ encoding of Model/Wire.lean; `<opt>` is 0 for `x[..]`, 1 for `x?[..]`):
   iterb <hex>                                 same, byte-level iterator model; answer is hex items
   trunc <strval> <n> <endstrval>              `truncate(length=n, end=..)` (char level)
   truncb <hex> <n> <hexend>                   same, byte-level model; answer is hex
+  pyspec <len> <start> <stop> <step>          Spec/PySlice.lean `select` on [0, 1, .., len-1]; operands are
+                                              decimal integers or `None`; answer "ok i,j,.." | "ValueError"
+                                              (lets the harness compare the Lean spec with python3 itself)
 Answers: "ok <value>" | "err <class>" | "panic <site>" | "fuel".
 -/
 import TeraModel.Model.Index
 import TeraModel.Model.Wire
+import TeraModel.Spec.PySlice
 open Tera Tera.Index
 
 def showPos : Pos → String
@@ -62,6 +66,9 @@ def parseOpt : String → Option Bool
   | "1" => some true
   | _ => none
 
+def parseOptInt (t : String) : Option (Option Int) :=
+  if t == "None" then some none else t.toInt?.map some
+
 def handle (line : String) : String :=
   match Wire.tokens line with
   | "idx" :: o :: rest =>
@@ -97,6 +104,13 @@ def handle (line : String) : String :=
     match Wire.hexBytes ((h.drop 2).toString.toList), n.toNat?, Wire.hexBytes ((e.drop 2).toString.toList) with
     | some bs, some n, some es => showRes (fun b => "h:" ++ Wire.bytesHex b) (truncateBytes bs n es)
     | _, _, _ => "bad-args"
+  | ["pyspec", n, a, b, c] =>
+    match n.toNat?, parseOptInt a, parseOptInt b, parseOptInt c with
+    | some n, some a, some b, some c =>
+      match PySlice.select (List.range n) a b c with
+      | some r => "ok " ++ String.intercalate "," (r.map toString)
+      | none => "ValueError"
+    | _, _, _, _ => "bad-args"
   | _ => "bad-request"
 
 partial def loop (h : IO.FS.Stream) (out : IO.FS.Stream) : IO Unit := do
